@@ -15,7 +15,10 @@ Inv (written from the statements of C03/C04, reads private fields only):
     obj.document is the root of obj's parent chain when that root is a Document,
     get_path / document / itersections / iterproperties terminate.
 
-Exploration: explicit-state breadth first search.  A state is the object graph reachable from a
+Two entry points: run_histories (below) and run_bulk_refusals (second half of the file: C06 for bulk / multi-step
+operations - the refused element at every position of the argument, for every reason of refusal).
+
+Exploration (run_histories): explicit-state breadth first search.  A state is the object graph reachable from a
 pool of 1 Document, 3 Sections (names a, b, a) and 2 Properties (names a, b); two histories that
 lead to the same canonical state (same shape, same pool identities, same names/ids-classes/
 values) are merged, which is equivalent to enumerating all operation sequences because the
@@ -24,6 +27,8 @@ objects by replaying its (shortest) history before each operation is applied.
 """
 from __future__ import annotations
 
+import datetime as _dt
+import itertools
 import random
 import signal
 
@@ -427,7 +432,14 @@ def primary_clause(problems):
 
 def invariant(env):
     """Inv(state): list of problems ([] == holds)."""
-    pool = pool_objs(env)
+    return invariant_of(pool_objs(env))
+
+
+def invariant_of(pool, queries='all'):
+    """Inv over the object graph reachable from the given Documents / Sections / Properties.
+    queries: 'all' - traversal queries are run from every container of the pool; 'roots' - from the roots only
+    (a traversal from a root visits every subtree; the O(n^2) re-traversal of each subtree is left out);
+    None - structure only."""
     problems = []
     # parent chains must be finite
     for o in pool:
@@ -448,7 +460,7 @@ def invariant(env):
     for o in pool:
         if not isinstance(o, BaseDocument):
             problems += h.attached_ok(o)
-    if problems:
+    if problems or queries is None:
         return problems
     # the structure is a forest: now the real queries must terminate and document must be the root
     try:
@@ -464,7 +476,8 @@ def invariant(env):
                             problems.append('document is %r for %r, root of its parent chain is %r'
                                             % (d, o, root))
                     o.get_path() if hasattr(o, 'get_path') else None
-                    if not isinstance(o, BaseProperty):
+                    if not isinstance(o, BaseProperty) and \
+                            (queries == 'all' or getattr(o, '_parent', None) is None):
                         n = 0
                         for _ in o.itersections():
                             n += 1
@@ -526,14 +539,57 @@ def signature(root):
     return out
 
 
+def _describe_change(x, y):
+    """Readable form of the first difference between two entries of signature()."""
+    if len(x) != len(y) or x[0] != y[0]:
+        return 'the objects reachable below it (or their order) changed: %r -> %r' % (x[1:], y[1:])
+    if len(x) == 4:
+        kind, names, parts = 'Property', h.PROP_FIELDS, ('parent', None, 'values')
+    elif len(x) == 6:
+        kind, names, parts = 'Section', h.SEC_FIELDS, ('parent', 'resolved link target (_merged)', None,
+                                                     'child Section list', 'child Property list')
+    else:
+        kind, names, parts = 'Document', h.DOC_FIELDS, (None, 'child Section list')
+    out = []
+    fields = None
+    for i, part in enumerate(parts):
+        a, b = x[i + 1], y[i + 1]
+        if part is None:
+            fields = a
+            for f, u, v in zip(names, a, b):
+                if u != v:
+                    out.append('%s %r -> %r' % (f, u[-1], v[-1]))
+        elif a != b:
+            if part == 'values':
+                out.append('values %r -> %r' % (a, b))
+            else:
+                out.append('%s changed (%s -> %s)' % (part, _count(a), _count(b)))
+    name = dict(zip(names, fields)).get('_name', ('', ''))[-1] if fields else ''
+    return '%s %r was changed: %s' % (kind, name, '; '.join(out))
+
+
+def _count(v):
+    if isinstance(v, tuple):
+        return '%d entries' % len(v)
+    return 'none' if v is None else 'an object'
+
+
 def pre_snapshot(env):
-    roots = h.roots_of(pool_objs(env))
+    return pre_snapshot_of(pool_objs(env))
+
+
+def pre_snapshot_of(objs):
+    roots = h.roots_of(objs)
     return [(r, signature(r)) for r in roots]
 
 
 def changed_on_raise(pre, env):
     """C06: compare all roots with the snapshots taken before the call. None == unchanged."""
-    roots = h.roots_of(pool_objs(env))
+    return changed_on_raise_of(pre, pool_objs(env))
+
+
+def changed_on_raise_of(pre, objs):
+    roots = h.roots_of(objs)
     if len(roots) != len(pre) or any(a is not b[0] for a, b in zip(roots, pre)):
         return 'the set of roots changed: %d roots before, %d after (an object was detached, attached ' \
                'or a new parent became reachable)' % (len(pre), len(roots))
@@ -544,7 +600,7 @@ def changed_on_raise(pre, env):
                 return 'root %r: %d objects reachable before, %d after' % (r, len(before), len(after))
             for x, y in zip(before, after):
                 if x != y:
-                    return 'root %r: an object below it changed from %r to %r' % (r, x[1:], y[1:])
+                    return 'root %r: %s' % (r, _describe_change(x, y))
     return None
 
 
@@ -912,4 +968,877 @@ def run_histories(tier='quick', seed=0, plan=None, walks=None, max_evaluations=N
     if sampled:
         res['last_level_sampled'] = '%d of %d states of the last level expanded (seeded sample, evaluation budget)' % sampled
     res['operations'] = len(OPS)
+    return res
+
+
+# =============================================================================================
+# C06 for bulk / multi-step operations: position of the refused element x reason of the refusal
+# =============================================================================================
+#
+# Contract (from the statement of C06, plus Inv of C03/C04 on every exit):
+#
+#     requires  Inv(pre-state)
+#     on raise  for every root reachable from any object of the scene or of the argument:
+#               signature(root) == old(signature(root)), same roots in the same order
+#     ensures   Inv(post-state)                                     (normal and exceptional exit)
+#
+# Nothing is demanded about WHETHER a call raises: an argument this module calls 'refusable' that the
+# library accepts is only a failure if the post-state violates Inv (C03/C04 say which states may exist).
+#
+# The run_histories alphabet only has the six pool objects, lists of length <= 2 and no fresh /
+# foreign / non-odml elements.  Here every operation that works in several steps (validate, detach,
+# attach, take over attributes ...) gets an argument in which ONE refusable element sits at EVERY
+# position of a list of length 1..3 (4..5 in the random extension), for EVERY reason the statements
+# name, while the other positions hold elements that would change the destination on their own.
+
+BNAME = 'C06.bulk_refusals'
+
+DESTS = ('section-in-document', 'detached-section', 'document')
+
+REFUSAL_REASONS = ('wrong-object-type', 'name-clash-at-destination', 'destination-is-self',
+                   'destination-in-own-subtree', 'duplicate-name-inside-argument',
+                   'same-object-twice-inside-argument')
+
+
+class Scene(object):
+    """Two documents and a detached tree, rebuilt from fresh objects for every evaluation.
+
+    D:  top(def) > mid > dest(def) > [Section k(def) > [Section g, Property g=[1]], Section k2,
+                                      Property k=[1,2] mV (def), Property k2=['x']]
+                       > sib > [Section e > [Section r, Property q], Property e]
+        top2, lt > [Section c1, Property lp] (a link target), lbad > [Section k of ANOTHER type]
+    D2: other > [Section x > [Property q], Property x]
+    lone (detached root, same children as dest)
+    """
+
+    def __init__(self, lone=True, link=True):
+        self.objs = []
+        with h.quiet():
+            self.D = self._add(odml.Document(author='A', version='1'))
+            self.D2 = self._add(odml.Document(author='B'))
+            self.top = self.sec('top', 't', self.D, definition='top def')
+            self.mid = self.sec('mid', 't', self.top)
+            self.dest = self.sec('dest', 'td', self.mid, definition='dest def')
+            self.sib = self.sec('sib', 't', self.mid)
+            self.top2 = self.sec('top2', 't', self.D)
+            if link:
+                self.lt = self.sec('lt', 'td', self.D)
+                self.sec('c1', 't', self.lt)
+                self.prop('lp', self.lt, values=[7])
+                self.lbad = self.sec('lbad', 'td', self.D)
+                self.sec('k', 'OTHER', self.lbad)
+            self.other = self.sec('other', 't', self.D2)
+            self.lone = self.sec('lone', 'tl', None, reference='lone ref')
+            for cont in (self.dest, self.lone) if lone else (self.dest,):
+                k = self.sec('k', 't', cont, definition='kd')
+                self.sec('g', 't', k)
+                self.prop('g', k, values=[1], dtype='int')
+                self.sec('k2', 't', cont)
+                self.prop('k', cont, values=[1, 2], dtype='int', unit='mV', definition='kdef')
+                self.prop('k2', cont, values=['x'], dtype='string')
+            self.e_s = self.sec('e', 't', self.sib)
+            self.sec('r', 't', self.e_s)
+            self.prop('q', self.e_s, values=[2.5])
+            self.e_p = self.prop('e', self.sib, values=['ev'])
+            self.x_s = self.sec('x', 't', self.other)
+            self.prop('q', self.x_s, values=[True])
+            self.x_p = self.prop('x', self.other, values=['xv'], unit='s')
+
+    def _add(self, o):
+        self.objs.append(o)
+        return o
+
+    def sec(self, name, type_, parent, **kw):
+        s = self._add(odml.Section(name=name, type=type_, **kw))
+        if parent is not None:
+            parent.append(s)
+        return s
+
+    def prop(self, name, parent, **kw):
+        p = self._add(odml.Property(name=name, **kw))
+        if parent is not None:
+            parent.append(p)
+        return p
+
+    def destination(self, dk):
+        return {'section-in-document': self.dest, 'detached-section': self.lone, 'document': self.D}[dk]
+
+    def track(self, o):
+        """Objects built for an argument are part of 'the documents involved' as well."""
+        if isinstance(o, (BaseDocument, BaseSection, BaseProperty)) and not any(o is x for x in self.objs):
+            self.objs.append(o)
+            self.rescan()
+        return o
+
+    def rescan(self):
+        """Add every Section / Property that is listed below a tracked object (bounded walk)."""
+        known = set(id(x) for x in self.objs)
+        stack = list(self.objs)
+        steps = 0
+        while stack and steps < 2000:
+            steps += 1
+            n = stack.pop()
+            kids = []
+            if isinstance(n, (BaseDocument, BaseSection)):
+                kids += _kids(n, 's')
+            if isinstance(n, BaseSection):
+                kids += _kids(n, 'p')
+            for c in kids:
+                if id(c) not in known and isinstance(c, (BaseSection, BaseProperty)):
+                    known.add(id(c))
+                    self.objs.append(c)
+                    stack.append(c)
+
+
+# ----- elements of an argument --------------------------------------------------------------
+
+# elements that change the destination when they are added on their own
+PRE_SECTION = ('fresh-section', 'section-attached-elsewhere', 'section-of-other-document', 'grandchild-section',
+               'child-section')
+PRE_PROPERTY = ('fresh-property', 'property-attached-elsewhere', 'property-of-other-document',
+                'grandchild-property', 'child-property')
+CORE_PRE = {'section': ('fresh-section', 'property-attached-elsewhere', 'section-of-other-document', 'child-property'),
+            'document': ('fresh-section', 'section-attached-elsewhere', 'section-of-other-document')}
+
+
+def core_of(dk):
+    return CORE_PRE['document' if dk == 'document' else 'section']
+
+
+def pre_roles(dk):
+    return PRE_SECTION if dk == 'document' else \
+        tuple(x for pair in zip(PRE_SECTION, PRE_PROPERTY) for x in pair)
+
+
+def bad_roles(dk):
+    """(reason the statements give for a refusal, variant).  'needs a partner' variants refer to another element."""
+    out = [('wrong-object-type', 'other-document'), ('wrong-object-type', 'none'), ('wrong-object-type', 'str'),
+           ('wrong-object-type', 'int'), ('wrong-object-type', 'nested-list'),
+           ('name-clash-at-destination', 'fresh-section'), ('name-clash-at-destination', 'section-attached-elsewhere'),
+           ('duplicate-name-inside-argument', 'fresh-twin-of-other-element'),
+           ('duplicate-name-inside-argument', 'attached-twin-of-other-element'),
+           ('same-object-twice-inside-argument', 'other-element-again')]
+    if dk == 'document':
+        out += [('wrong-object-type', 'fresh-property'), ('wrong-object-type', 'property-attached-elsewhere'),
+                ('wrong-object-type', 'the-document-itself')]
+    else:
+        out += [('name-clash-at-destination', 'fresh-property'),
+                ('name-clash-at-destination', 'property-attached-elsewhere'),
+                ('destination-is-self', 'destination')]
+    if dk == 'section-in-document':
+        out += [('destination-in-own-subtree', 'parent'), ('destination-in-own-subtree', 'grandparent'),
+                ('wrong-object-type', 'own-document')]
+    return out
+
+
+NEEDS_PARTNER = ('duplicate-name-inside-argument', 'same-object-twice-inside-argument')
+
+
+def _first_child(dest, kind):
+    return _kids(dest, kind)[0]
+
+
+def resolve_pre(sc, dk, role):
+    dest = sc.destination(dk)
+    with h.quiet():
+        if role == 'fresh-section':
+            s = odml.Section(name='f', type='t', definition='fresh')
+            odml.Section(name='fs', type='t', parent=s)
+            odml.Property(name='fp', values=[1.5], parent=s)
+            return sc.track(s)
+        if role == 'fresh-property':
+            return sc.track(odml.Property(name='f', values=['fv'], unit='u'))
+    if role == 'section-attached-elsewhere':
+        return sc.e_s
+    if role == 'property-attached-elsewhere':
+        return sc.e_p
+    if role == 'section-of-other-document':
+        return sc.x_s
+    if role == 'property-of-other-document':
+        return sc.x_p
+    if role == 'child-section':
+        return _first_child(dest, 's')
+    if role == 'child-property':
+        return _first_child(dest, 'p')
+    if role == 'grandchild-section':
+        return _first_child(_first_child(dest, 's'), 's')
+    if role == 'grandchild-property':
+        return _first_child(_first_child(dest, 's'), 'p')
+    raise AssertionError(role)
+
+
+def resolve_bad(sc, dk, bad, partner):
+    reason, variant = bad
+    dest = sc.destination(dk)
+    with h.quiet():
+        holder = None
+        if 'attached' in variant and reason != 'wrong-object-type':
+            holder = sc.track(odml.Section(name='holder%d' % len(sc.objs), type='t', parent=sc.D2))     # 'elsewhere' for built objects
+        if reason == 'wrong-object-type':
+            if variant == 'other-document':
+                return sc.D2
+            if variant in ('own-document', 'the-document-itself'):
+                return sc.D
+            if variant == 'none':
+                return None
+            if variant == 'str':
+                return 'abc'
+            if variant == 'int':
+                return 7
+            if variant == 'nested-list':
+                return [sc.track(odml.Section(name='nested', type='t'))]
+            if variant == 'fresh-property':
+                return sc.track(odml.Property(name='wp', values=[1]))
+            if variant == 'property-attached-elsewhere':
+                return sc.e_p
+        if reason == 'name-clash-at-destination':
+            if variant.endswith('section'):
+                name = _first_child(dest, 's')._name
+                s = sc.track(odml.Section(name=name, type='clash', definition='clashing'))
+                sc.track(odml.Property(name='cp', values=[1], parent=s))
+                return s
+            if variant == 'section-attached-elsewhere':
+                name = _first_child(dest, 's')._name
+                s = sc.track(odml.Section(name=name, type='clash', parent=holder))
+                sc.track(odml.Property(name='cp', values=[1], parent=s))
+                return s
+            name = _first_child(dest, 'p')._name
+            return sc.track(odml.Property(name=name, values=['clash'],
+                                          parent=holder))
+        if reason == 'duplicate-name-inside-argument':
+            par = holder
+            if isinstance(partner, BaseSection):
+                return sc.track(odml.Section(name=partner._name, type='twin', parent=par))
+            return sc.track(odml.Property(name=partner._name, values=['twin'], parent=par))
+        if reason == 'same-object-twice-inside-argument':
+            return partner
+        if reason == 'destination-is-self':
+            return dest
+        if reason == 'destination-in-own-subtree':
+            return dest._parent if variant == 'parent' else dest._parent._parent
+    raise AssertionError(bad)
+
+
+def argument_features(dest, items):
+    """Independent classification of an argument list from the pre-state (private fields only):
+    (feature string, index of the first refusable element | None, kinds of the elements, class of a failure)."""
+    reasons = set()
+    kinds = set()
+    first = None
+    per = []
+    for it in items:
+        f = _attach_features(None, dest, it)
+        per.append(set(x for x in f if x in REFUSAL_REASONS))
+        kinds |= set(x for x in f if x not in REFUSAL_REASONS)
+    for i in range(len(items)):
+        for j in range(i + 1, len(items)):
+            a, b = items[i], items[j]
+            if not isinstance(a, (BaseSection, BaseProperty)) or not isinstance(b, (BaseSection, BaseProperty)):
+                continue
+            if a is b:
+                per[j].add('same-object-twice-inside-argument')
+            elif isinstance(a, BaseSection) == isinstance(b, BaseSection) and a._name == b._name:
+                per[j].add('duplicate-name-inside-argument')
+    for i, r in enumerate(per):
+        if r and first is None:
+            first = i
+        reasons |= r
+    if not reasons:
+        return 'nothing-refusable', None, kinds, None
+    tail = '+refused-element-not-first' if first else ''
+    # class of a failure: the reasons of the FIRST refusable element only (stable when several are refusable)
+    return '+'.join(sorted(reasons)) + tail, first, kinds, '+'.join(sorted(per[first])) + tail
+
+
+class _Bulk(object):
+    """Accumulates evaluations and failures of run_bulk_refusals."""
+
+    def __init__(self, col):
+        self.col = col
+        self.raw = {}
+
+    def evaluate(self, sc, thunk, op, feat, dest_label, witness, sample=None, cls_feat=None):
+        """One contract evaluation on the scene `sc` (already containing the argument objects).
+        feat: every pre-state feature (class of the evaluation); cls_feat: the part of it that names a reason
+        for a refusal (class of a failure; default: feat)."""
+        objs = list(sc.objs)
+        bad_pre = invariant_of(objs, queries=None)
+        assert not bad_pre, (witness, bad_pre)          # requires Inv(pre-state): a harness bug otherwise
+        pre = pre_snapshot_of(objs)
+        violations = []
+        outcome, exc = 'ret', None
+        try:
+            with guard(10.0):
+                with h.quiet():
+                    try:
+                        thunk()
+                    except Timeout:
+                        raise
+                    except Exception as e:      # noqa
+                        outcome, exc = 'exc', e
+        except Timeout:
+            outcome = 'timeout'
+            violations.append(('operation-terminates', 'operation did not return within 10 s'))
+        sc.rescan()                             # whatever became reachable below a tracked object
+        objs = list(sc.objs)
+        problems = invariant_of(objs, queries='roots') if outcome != 'timeout' else []
+        if problems:
+            violations.append((primary_clause(problems),
+                               'after %s (%s): %s' % (outcome, type(exc).__name__ if exc else 'ok',
+                                                      '; '.join(problems[:3]))))
+        if outcome == 'exc':
+            if problems and any(categorize(p) in STRUCTURAL for p in problems):
+                ch = 'the state is no longer well-formed (%s)' % problems[0]
+            else:
+                ch = changed_on_raise_of(pre, objs)
+            if ch:
+                violations.append(('unchanged-on-raise',
+                                   'raised %s: %s but %s' % (type(exc).__name__, str(exc)[:80], ch)))
+        self.col.case(cls_key=(op, dest_label, feat, outcome), sample=sample)
+        for clause, detail in violations:
+            k = (clause, op, dest_label, cls_feat or feat)
+            size = len(repr(witness))
+            if k not in self.raw:
+                self.raw[k] = [0, size, witness, detail]
+            self.raw[k][0] += 1
+            if size < self.raw[k][1]:
+                self.raw[k][1:] = [size, witness, detail]
+        return outcome
+
+    def report(self):
+        for (clause, op, dest_label, feat), (count, _, witness, detail) in sorted(self.raw.items(), key=repr):
+            prop = 'C06' if clause == 'unchanged-on-raise' else \
+                ('C04' if clause in ('sibling-section-names-unique', 'sibling-property-names-unique',
+                                     'name-not-empty', 'id-canonical-uuid') else 'C03')
+            self.col.fail(check='%s/%s' % (BNAME, clause),
+                          cls={'clause': clause, 'op': op, 'destination': dest_label, 'feature': feat,
+                               'property': prop},
+                          witness=dict(witness, scene=Scene.__doc__.split('\n\n', 1)[1].strip()),
+                          detail='%s  [%d failing evaluations of this class]' % (detail, count))
+
+
+def dest_label(dk):
+    return 'Document' if dk == 'document' else 'Section'
+
+
+# ----- phase A: extend ------------------------------------------------------------------------
+
+def _lists(dk, quick):
+    """(roles of the unrefusable elements, position of the refusable one | None, bad role | None)."""
+    pre = pre_roles(dk)
+    core = CORE_PRE['document' if dk == 'document' else 'section']
+    bads = bad_roles(dk)
+    for n_fill in (0, 1, 2):
+        if quick and n_fill == 2 and dk == 'detached-section':
+            continue                                             # quick: length 3 on the other two destinations
+        pool = core if (quick and n_fill == 2) else pre
+        for fill in itertools.permutations(pool, n_fill):
+            if fill:
+                yield fill, None, None                       # control: nothing refusable by construction
+            for pos in range(n_fill + 1):
+                for bad in bads:
+                    if bad[0] in NEEDS_PARTNER and not fill:
+                        continue
+                    yield fill, pos, bad
+
+
+def build_argument(sc, dk, fill, pos, bad):
+    items = [resolve_pre(sc, dk, r) for r in fill]
+    if bad is not None:
+        items.insert(pos, resolve_bad(sc, dk, bad, items[0] if items else None))
+    return items
+
+
+def _arg_witness(dk, op, fill, pos, bad, extra=None):
+    arg = list(fill)
+    if bad is not None:
+        arg.insert(pos, '%s (%s)' % bad)
+    w = {'destination': dk, 'op': op, 'argument': arg}
+    if extra:
+        w.update(extra)
+    return w
+
+
+def phase_extend(bulk, tier, seed):
+    quick = tier == 'quick'
+    containers = ('list',) if quick else ('list', 'tuple')
+    for dk in DESTS:
+        for fill, pos, bad in _lists(dk, quick):
+            for cont in containers:
+                if cont == 'tuple' and len(fill) == 2 and not set(fill) <= set(core_of(dk)):
+                    continue                                  # the tuple form: lengths 1..2, length 3 over the core elements
+                sc = Scene(lone=(dk == 'detached-section'), link=False)
+                dest = sc.destination(dk)
+                items = build_argument(sc, dk, fill, pos, bad)
+                feat, first, kinds, cls_feat = argument_features(dest, items)
+                arg = items if cont == 'list' else tuple(items)
+                bulk.evaluate(sc, lambda: dest.extend(arg), 'extend', feat + '|' + '+'.join(sorted(kinds)),
+                              dest_label(dk), _arg_witness(dk, 'extend', fill, pos, bad, {'container': cont}),
+                              sample='%s.extend(%s)' % (dk, _arg_witness(dk, 'extend', fill, pos, bad)['argument']),
+                              cls_feat=cls_feat or feat)
+    if quick:
+        return
+    # random extension: longer lists, one or two refusable elements anywhere
+    rnd = random.Random('bulk-%s' % seed)
+    for _ in range(4000):
+        dk = rnd.choice(DESTS)
+        pre = list(pre_roles(dk))
+        rnd.shuffle(pre)
+        fill = tuple(pre[:rnd.choice((2, 3, 4))])
+        sc = Scene(lone=(dk == 'detached-section'), link=False)
+        dest = sc.destination(dk)
+        items = [resolve_pre(sc, dk, r) for r in fill]
+        labels = list(fill)
+        for _b in range(rnd.choice((1, 1, 2))):
+            bad = rnd.choice(bad_roles(dk))
+            at = rnd.randrange(len(items) + 1)
+            partner = rnd.choice([x for x in items if isinstance(x, (BaseSection, BaseProperty))])
+            items.insert(at, resolve_bad(sc, dk, bad, partner))
+            labels.insert(at, '%s (%s)' % bad)
+        feat, first, kinds, cls_feat = argument_features(dest, items)
+        bulk.evaluate(sc, lambda: dest.extend(items), 'extend', feat + '|' + '+'.join(sorted(kinds)), dest_label(dk),
+                      {'destination': dk, 'op': 'extend', 'argument': labels, 'container': 'list'},
+                      cls_feat=cls_feat or feat)
+
+
+# ----- phase B: operations taking one object -----------------------------------------------------
+
+def _single_ops(dk):
+    ops = [('append',), ('insert', 0), ('insert', 1), ('insert', -1), ('insert', 99), ('set_parent',),
+           ('append-a-list',), ('extend-with-the-object',)]
+    for i in (0, 1, -1, 5):
+        ops.append(('setitem_sec', i))
+        if dk != 'document':
+            ops.append(('setitem_prop', i))
+    ops.append(('setitem_sec', 'slice'))
+    return ops
+
+
+def _index_feature(i, n):
+    if i == 'slice':
+        return 'slice-index'
+    if i >= n or i < -n:
+        return 'index-out-of-range'
+    return None
+
+
+def phase_single(bulk, tier, seed):
+    for dk in DESTS:
+        roles = [(r, None) for r in pre_roles(dk)] + [(None, b) for b in bad_roles(dk) if b[0] not in NEEDS_PARTNER]
+        for op in _single_ops(dk):
+            for role, bad in roles:
+                sc = Scene(lone=(dk == 'detached-section'), link=False)
+                dest = sc.destination(dk)
+                x = resolve_pre(sc, dk, role) if role else resolve_bad(sc, dk, bad, None)
+                kind = op[0]
+                f = set()
+                if kind in ('setitem_sec', 'setitem_prop'):
+                    lst = _kids(dest, 's' if kind == 'setitem_sec' else 'p')
+                    idx = _index_feature(op[1], len(lst))
+                    if idx:
+                        f.add(idx)
+                    if (kind == 'setitem_sec') != isinstance(x, BaseSection):
+                        f.add('wrong-object-type')
+                    else:
+                        ri = None if idx else op[1] % len(lst)
+                        if ri is not None and lst[ri] is x:
+                            f.add('replaces-itself')
+                        f |= _attach_features(None, dest, x, replace_index=ri)
+                else:
+                    f |= _attach_features(None, dest, x)
+                    if kind == 'append-a-list':
+                        f.add('list-instead-of-object')
+                    if kind == 'extend-with-the-object':
+                        # a Section is iterable (its children), anything else is not an argument for extend
+                        f = set(['section-iterated-as-its-children' if isinstance(x, BaseSection)
+                                 else 'object-instead-of-list'])
+                    if kind == 'insert' and not f & set(REFUSAL_REASONS):
+                        n = len(_kids(dest, 's' if isinstance(x, BaseSection) else 'p'))
+                        if op[1] < 0:
+                            f.add('negative-index')
+                        elif op[1] > n:
+                            f.add('index-beyond-end')
+                if kind == 'set_parent' and not isinstance(x, (BaseSection, BaseProperty)):
+                    continue                                  # nothing to assign to
+                feat = relevant_feature('unchanged-on-raise', '+'.join(sorted(f)) if f else 'plain')
+                if kind == 'append':
+                    thunk = lambda: dest.append(x)
+                elif kind == 'append-a-list':
+                    thunk = lambda: dest.append([x])
+                elif kind == 'extend-with-the-object':
+                    thunk = lambda: dest.extend(x)
+                elif kind == 'insert':
+                    thunk = lambda: dest.insert(op[1], x)
+                elif kind == 'set_parent':
+                    def thunk():
+                        x.parent = dest
+                elif kind == 'setitem_sec':
+                    def thunk():
+                        if op[1] == 'slice':
+                            dest.sections[0:1] = [x]
+                        else:
+                            dest.sections[op[1]] = x
+                else:
+                    def thunk():
+                        dest.properties[op[1]] = x
+                label = kind if len(op) == 1 else '%s[%s]' % (kind, op[1])
+                bulk.evaluate(sc, thunk, kind, feat, dest_label(dk),
+                              {'destination': dk, 'op': label, 'argument': role or '%s (%s)' % bad})
+
+
+# ----- phase C: constructors with parent=, create_section / create_property -------------------------
+
+BAD_SECTION_KW = (('invalid-cardinality-argument', {'sec_cardinality': (2, 1)}),
+                  ('invalid-cardinality-argument', {'prop_cardinality': 'many'}),
+                  ('invalid-cardinality-argument', {'prop_cardinality': (-1, 2)}),
+                  ('id-garbage', {'oid': 'not-a-uuid'}),
+                  ('unresolvable-link-argument', {'link': '/no/such/section'}))
+BAD_PROPERTY_KW = (('invalid-cardinality-argument', {'val_cardinality': (2, 1)}),
+                   ('unconvertible-value-argument', {'values': 'x', 'dtype': 'int'}),
+                   ('unconvertible-value-argument', {'values': [1, 2, 'x'], 'dtype': 'int'}),
+                   ('unconvertible-value-argument', {'values': ['2020-01-02', '2020-13-01'], 'dtype': 'date'}),
+                   ('unknown-dtype-argument', {'values': [1], 'dtype': 'quantity'}),
+                   ('id-garbage', {'oid': 'not-a-uuid'}))
+CTOR_REFUSALS = {'wrong-object-type', 'name-clash-at-destination', 'invalid-cardinality-argument',
+                 'unconvertible-value-argument'}
+PARENTS = ('section-in-document', 'detached-section', 'document', 'a-property', 'a-str', 'an-int')
+
+
+def _parent_obj(sc, pk):
+    if pk in DESTS:
+        return sc.destination(pk)
+    return {'a-property': sc.e_p, 'a-str': 'abc', 'an-int': 7}[pk]
+
+
+def phase_ctor(bulk, tier, seed):
+    for what, bad_kw in (('ctor_sec', BAD_SECTION_KW), ('ctor_prop', BAD_PROPERTY_KW)):
+        combos = [()] + [(b,) for b in bad_kw] + \
+            [c for c in itertools.combinations(bad_kw, 2) if not set(c[0][1]) & set(c[1][1])]
+        for pk in PARENTS:
+            for name_kind in ('new-name', 'name-of-a-child', 'no-name'):
+                for combo in combos:
+                    sc = Scene(lone=(pk == 'detached-section'), link=False)
+                    par = _parent_obj(sc, pk)
+                    f = set(lab for lab, _ in combo)
+                    ok_parent = isinstance(par, BaseSection) or (what == 'ctor_sec' and isinstance(par, BaseDocument))
+                    if not ok_parent:
+                        f.add('wrong-object-type')
+                    name = {'new-name': 'brandnew', 'no-name': None}.get(name_kind)
+                    if name_kind == 'name-of-a-child':
+                        if not ok_parent:
+                            continue
+                        name = _first_child(par, 's' if what == 'ctor_sec' else 'p')._name
+                        f.add('name-clash-at-destination')
+                    kw = {}
+                    for _, d in combo:
+                        kw.update(d)
+                    if what == 'ctor_sec':
+                        thunk = lambda: odml.Section(name=name, type='t', parent=par, definition='new', **kw)
+                    else:
+                        kw.setdefault('values', [1, 2])
+                        thunk = lambda: odml.Property(name=name, parent=par, unit='mV', **kw)
+                    feat = '+'.join(sorted(f)) if f else 'plain'
+                    bulk.evaluate(sc, thunk, what, feat, 'Document' if pk == 'document' else
+                                  ('Section' if pk in DESTS else 'not-a-container'),
+                                  {'op': what, 'parent': pk, 'name': name_kind, 'arguments': repr(kw)},
+                                  cls_feat='+'.join(sorted(f & CTOR_REFUSALS)) or feat)
+    for dk in DESTS:
+        for name_kind in ('new-name', 'name-of-a-child'):
+            sc = Scene(lone=(dk == 'detached-section'), link=False)
+            dest = sc.destination(dk)
+            name = 'brandnew' if name_kind == 'new-name' else _first_child(dest, 's')._name
+            feat = 'plain' if name_kind == 'new-name' else 'name-clash-at-destination'
+            bulk.evaluate(sc, lambda: dest.create_section(name, 't'), 'create_section', feat, dest_label(dk),
+                          {'op': 'create_section', 'destination': dk, 'name': name_kind})
+            if dk == 'document':
+                continue
+            for lab, kw in ((None, {}),) + tuple(b for b in BAD_PROPERTY_KW if 'val_cardinality' not in b[1]):
+                sc = Scene(lone=(dk == 'detached-section'), link=False)
+                dest = sc.destination(dk)
+                name = 'brandnew' if name_kind == 'new-name' else _first_child(dest, 'p')._name
+                f = set([lab] if lab else []) | set([] if name_kind == 'new-name' else ['name-clash-at-destination'])
+                bulk.evaluate(sc, lambda: dest.create_property(name, **kw), 'create_property',
+                              '+'.join(sorted(f)) if f else 'plain', dest_label(dk),
+                              {'op': 'create_property', 'destination': dk, 'name': name_kind, 'arguments': repr(kw)},
+                              cls_feat='+'.join(sorted(f & CTOR_REFUSALS)) or None)
+
+
+# ----- phase D: merge - the children of the source are the argument list ----------------------------
+
+def _m_new_section():
+    s = odml.Section(name='n1', type='t', definition='brand new')
+    odml.Property(name='np', values=[5], parent=s)
+    return s
+
+
+def _m_matching_section():
+    s = odml.Section(name='k', type='t')
+    odml.Property(name='fresh', values=[1], parent=s)
+    odml.Section(name='deeper', type='t', parent=s)
+    return s
+
+
+def _m_nested_prop_conflict():
+    s = odml.Section(name='k', type='t')
+    odml.Property(name='added-before', values=[1], parent=s)
+    odml.Property(name='g', values=['abc'], dtype='string', parent=s)
+    return s
+
+
+def _m_nested_type_clash():
+    s = odml.Section(name='k', type='t', reference='taken over before')
+    odml.Section(name='added-before', type='t', parent=s)
+    odml.Section(name='g', type='OTHER', parent=s)
+    return s
+
+
+MERGE_GOOD = (
+    ('new-section', _m_new_section),
+    ('new-property', lambda: odml.Property(name='n1', values=['a'])),
+    ('property-with-new-values', lambda: odml.Property(name='k', values=[3], dtype='int', unit='mV')),
+    ('matching-section-with-new-content', _m_matching_section),
+    ('property-filling-attributes', lambda: odml.Property(name='k2', values=['y'], dtype='string', definition='filled')),
+    ('property-with-multi-line-text', lambda: odml.Property(name='k2', values=['two\nlines', 'x'], dtype='string')),
+)
+MERGE_BAD = (
+    ('property-dtype-conflict', lambda: odml.Property(name='k', values=['abc'], dtype='string')),
+    ('property-unit-conflict', lambda: odml.Property(name='k', values=[9], dtype='int', unit='s')),
+    ('property-definition-conflict', lambda: odml.Property(name='k', values=[9], dtype='int', unit='mV',
+                                                           definition='another definition')),
+    ('section-same-name-other-type', lambda: odml.Section(name='k2', type='OTHER')),
+    ('section-definition-conflict', lambda: odml.Section(name='k', type='t', definition='another definition')),
+    ('nested-property-dtype-conflict', _m_nested_prop_conflict),
+    ('nested-section-same-name-other-type', _m_nested_type_clash),
+)
+
+
+def phase_merge(bulk, tier, seed):
+    quick = tier == 'quick'
+    goods = dict(MERGE_GOOD)
+    bads = dict(MERGE_BAD)
+    core = ('new-section', 'property-with-new-values', 'matching-section-with-new-content')
+    cases = []
+    for n_fill in (0, 1, 2):
+        pool = core if (quick and n_fill == 2) else [g for g, _ in MERGE_GOOD]
+        for fill in itertools.permutations(pool, n_fill):
+            if fill:
+                cases.append((fill, None, None))
+            for pos in range(n_fill + 1):
+                for bad, _ in MERGE_BAD:
+                    cases.append((fill, pos, bad))
+    wrong = (('wrong-object-type', 'a-property'), ('wrong-object-type', 'a-document'), ('wrong-object-type', 'none'),
+             ('self-merge', 'destination'))
+    for dk in ('section-in-document', 'detached-section'):
+        for src_home in ('detached', 'in-other-document'):
+            if quick and (dk, src_home) == ('detached-section', 'in-other-document'):
+                continue
+            for strict in (True, False):
+                if quick and not strict and (dk, src_home) != ('section-in-document', 'detached'):
+                    continue
+                for fill, pos, bad in cases:
+                    sc = Scene(lone=(dk == 'detached-section'), link=False)
+                    dest = sc.destination(dk)
+                    labels = list(fill)
+                    if bad:
+                        labels.insert(pos, bad)
+                    with h.quiet():
+                        kids = [(goods.get(l) or bads[l])() for l in labels]
+                        if len(set((isinstance(k, BaseSection), k._name) for k in kids)) != len(kids):
+                            continue                          # two children of one name cannot live in one source
+                        src = odml.Section(name='src', type='td', reference='src ref')
+                        for k in kids:
+                            src.append(k)
+                        if src_home == 'in-other-document':
+                            sc.other.append(src)
+                    sc.track(src)
+                    feat = 'nothing-refusable' if not bad else \
+                        '%s%s' % (bad, '+conflicting-child-not-first' if pos else '')
+                    bulk.evaluate(sc, lambda: dest.merge(src, strict=strict), 'merge', feat + '|strict=%s' % strict,
+                                  'Section', {'op': 'merge', 'destination': dk, 'source-children': labels,
+                                              'source': src_home, 'strict': strict}, cls_feat=feat)
+        for reason, variant in wrong:
+            sc = Scene(lone=(dk == 'detached-section'), link=False)
+            dest = sc.destination(dk)
+            src = {'a-property': sc.e_p, 'a-document': sc.D2, 'none': None, 'destination': dest}[variant]
+            bulk.evaluate(sc, lambda: dest.merge(src), 'merge', reason, 'Section',
+                          {'op': 'merge', 'destination': dk, 'source': variant})
+
+
+# ----- phase E: value lists of a Property that lives in a document -----------------------------------
+
+VALUE_LISTS = {
+    # dtype: (values the Property starts with, acceptable new values, values the dtype cannot take)
+    'int': ([1], [5, '7'], ['abc', {'a': 1}]),
+    'float': ([1.5], [2.5, '3.5'], ['abc', {'a': 1}]),
+    'boolean': ([True], [False, 'true'], ['maybe', 7]),
+    'date': ([_dt.date(2020, 1, 2)], [_dt.date(1999, 12, 31), '2001-02-03'], ['2020-13-01', 'abc']),
+    'time': ([_dt.time(1, 2, 3)], [_dt.time(4, 5, 6), '07:08:09'], ['25:00:00', 'abc']),
+    'datetime': ([_dt.datetime(2020, 1, 2, 3, 4, 5)], ['2001-02-03 04:05:06'], ['2020-01-02 25:00:00', 'abc']),
+    '2-tuple': (['(1;2)'], ['(3;4)', '(5;6)'], ['(1;2;3)', 'abc']),
+}
+
+
+def phase_values(bulk, tier, seed):
+    for dtype, (start, good, bad) in VALUE_LISTS.items():
+        if tier == 'quick' and dtype in ('float', 'time', 'datetime'):
+            continue
+        lists = []
+        for b in bad:
+            lists.append(('unconvertible-value-argument', [b]))
+            for g in good:
+                lists.append(('unconvertible-value-argument+refused-element-not-first', [g, b]))
+                lists.append(('unconvertible-value-argument', [b, g]))
+            for g1, g2 in itertools.permutations(good, 2):
+                lists.append(('unconvertible-value-argument+refused-element-not-first', [g1, g2, b]))
+                lists.append(('unconvertible-value-argument+refused-element-not-first', [g1, b, g2]))
+                lists.append(('unconvertible-value-argument', [b, g1, g2]))
+        lists.append(('nothing-refusable', list(good)))
+        for feat, lst in lists:
+            for op in ('values=', 'extend', 'extend-nonstrict', 'append', 'insert', 'setitem', 'ctor', 'create_property',
+                       'merge', 'dtype='):
+                if op in ('append', 'setitem', 'insert') and len(lst) != 1:
+                    continue
+                if op == 'dtype=' and feat != 'nothing-refusable' and len(lst) != 1:
+                    continue
+                sc = Scene(lone=False, link=False)
+                with h.quiet():
+                    p = sc.track(odml.Property(name='v', dtype=dtype, values=list(start), unit='u', parent=sc.dest))
+                arg = list(lst)
+                f = feat
+                if op == 'values=':
+                    def thunk():
+                        p.values = arg
+                elif op == 'extend':
+                    thunk = lambda: p.extend(arg)
+                elif op == 'extend-nonstrict':
+                    thunk = lambda: p.extend(arg, strict=False)
+                elif op == 'append':
+                    thunk = lambda: p.append(arg[0])
+                elif op == 'insert':
+                    thunk = lambda: p.insert(0, arg[0])
+                elif op == 'setitem':
+                    def thunk():
+                        p[0] = arg[0]
+                elif op == 'ctor':
+                    thunk = lambda: odml.Property(name='w', dtype=dtype, values=arg, parent=sc.dest)
+                elif op == 'create_property':
+                    thunk = lambda: sc.dest.create_property('w', values=arg, dtype=dtype)
+                elif op == 'merge':
+                    # the source holds the list under another dtype: string -> dtype conversion is refused for the bad item
+                    with h.quiet():
+                        src = sc.track(odml.Property(name='v', dtype='string', values=[str(x) for x in arg], unit='u'))
+                    thunk = lambda: p.merge(src)
+                    f = feat.replace('unconvertible-value-argument', 'source-of-other-dtype')
+                    if feat == 'nothing-refusable':
+                        f = 'source-of-other-dtype'
+                else:
+                    # re-typing a Property whose values the new dtype cannot take: all or nothing
+                    with h.quiet():
+                        p2 = sc.track(odml.Property(name='v2', dtype='string', values=[str(x) for x in arg],
+                                                    parent=sc.dest))
+
+                    def thunk():
+                        p2.dtype = dtype
+                    f = feat.replace('unconvertible-value-argument', 'values-unconvertible-to-new-dtype')
+                bulk.evaluate(sc, thunk, 'values:' + op, '%s|%s' % (f, dtype), 'Property',
+                              {'op': op, 'dtype': dtype, 'start': repr(start), 'argument': repr(lst)})
+
+
+# ----- phase F: link assignment (clean the old resolution, set, resolve by merging) -------------------
+
+def phase_link(bulk, tier, seed):
+    targets = (('unresolvable-link', '/no/such/section'), ('unresolvable-link', '../../nowhere'),
+               ('unresolvable-link', 'lt'), ('link-is-not-a-path', 5),
+               ('link-target-cannot-be-merged', '/lbad'), ('nothing-refusable', '/lt'),
+               ('nothing-refusable', '/top/mid/sib'), ('nothing-refusable', None))
+    for state in ('no-link', 'link-resolved', 'include-recorded'):
+        for feat, target in targets:
+            sc = Scene(lone=False, link=True)
+            sec = sc.dest
+            with h.quiet():
+                if state == 'link-resolved':
+                    sec.link = '/lt'
+                    sc.rescan()
+                elif state == 'include-recorded':
+                    sec._include = 'http://example.invalid/terms.xml#sec'     # as a loader records it; nothing is fetched
+
+            def thunk():
+                sec.link = target
+            f = feat if state != 'include-recorded' else 'link-and-include-exclusive'
+            bulk.evaluate(sc, thunk, 'set_link', '%s|%s' % (f, state), 'Section',
+                          {'op': 'dest.link = %r' % (target,), 'state': state}, cls_feat=f)
+
+
+# ----- phase G: attributes with a validated format -----------------------------------------------------
+
+def phase_attributes(bulk, tier, seed):
+    cases = (
+        ('invalid-date', 'Document', 'date', lambda sc: sc.D, ('not-a-date', '2020-13-01', 20200102)),
+        ('nothing-refusable', 'Document', 'date', lambda sc: sc.D, ('2020-01-02', None)),
+        ('invalid-cardinality-argument', 'Section', 'sec_cardinality', lambda sc: sc.dest, ((2, 1), 'x', (-1, None))),
+        ('invalid-cardinality-argument', 'Section', 'prop_cardinality', lambda sc: sc.dest, ((2, 1), 'x', (1, 2, 3))),
+        ('invalid-cardinality-argument', 'Property', 'val_cardinality',
+         lambda sc: _first_child(sc.dest, 'p'), ((2, 1), 'x', (None, -1))),
+        ('id-garbage', 'Section', 'new_id', lambda sc: sc.dest, ('not-a-uuid', VALID_ID[:-4])),
+        ('name-clash-among-siblings', 'Section', 'name', lambda sc: _first_child(sc.dest, 's'), ('k2',)),
+        ('name-clash-among-siblings', 'Property', 'name', lambda sc: _first_child(sc.dest, 'p'), ('k2',)),
+    )
+    for feat, owner, attr, pick, values in cases:
+        for v in values:
+            sc = Scene(lone=False, link=False)
+            with h.quiet():
+                sc.D.date = '2019-09-09'
+                sc.dest.sec_cardinality = (0, 9)
+                sc.dest.prop_cardinality = (0, 9)
+                _first_child(sc.dest, 'p').val_cardinality = (0, 9)
+            o = pick(sc)
+            if attr == 'new_id':
+                thunk = lambda: o.new_id(v)
+            else:
+                def thunk():
+                    setattr(o, attr, v)
+            bulk.evaluate(sc, thunk, 'set:' + attr, feat, owner, {'op': '%s.%s = %r' % (owner, attr, v)})
+            if attr == 'date' and feat == 'invalid-date':
+                sc = Scene(lone=False, link=False)
+                bulk.evaluate(sc, lambda: odml.Document(author='x', date=v), 'ctor_doc', feat, 'Document',
+                              {'op': 'Document(date=%r)' % (v,)})
+
+
+PHASES = (('extend', phase_extend), ('single', phase_single), ('ctor', phase_ctor), ('merge', phase_merge),
+          ('values', phase_values), ('link', phase_link), ('attributes', phase_attributes))
+
+
+def run_bulk_refusals(tier='quick', seed=0, phases=None):
+    col = h.Collector(
+        BNAME,
+        rule='every multi-step editing operation on a fresh scene (two documents + a detached tree; destination: a Section '
+             '3 levels deep, a detached Section, the Document): (A) extend with every argument of length 1..3 (list%s) in '
+             'which one refusable element (wrong type: Document / None / str / int / nested list / Property into a Document; '
+             'name clash with a child, fresh or attached elsewhere; duplicate name of / same object as another element; '
+             'the destination itself, its parent, its grandparent) sits at every position and the other positions hold '
+             'every permutation of elements that change the destination on their own (fresh, attached elsewhere in the '
+             'document, from another document, grandchild, child; Section and Property)%s; (B) append / insert at 4 '
+             'indices / parent assignment / item assignment at 4 indices and a slice on both child lists with each such '
+             'object; (C) Section(...) and Property(...) with parent= x {new, clashing, no name} x every subset of <= 2 '
+             'refused arguments x 6 parents, create_section / create_property; (D) Section.merge whose source has 1..3 '
+             'children, one in conflict at every position, strict on/off, source detached / in another document; (E) value '
+             'lists of length 1..3 with the unconvertible item at every position x %d dtypes x 10 entry points; (F) link '
+             'assignment x {no link, resolved link, include recorded}; (G) date / cardinality / id / name assignment; '
+             'contract per evaluation: {Inv} op {Inv; every root unchanged on raise}; distinct = (operation, destination, '
+             'pre-state feature, outcome)'
+             % ((('', '; quick: length 3 over 4 core elements, not on the detached Section') if tier == 'quick' else
+                 (' and tuple (tuple: length 3 over 4 core elements)', '; plus 4000 seeded random lists of length 3..6 with 1-2 refusable elements')) +
+                (4 if tier == 'quick' else 7,)),
+        exhaustive=True)
+    bulk = _Bulk(col)
+    per_phase = {}
+    for name, fn in PHASES:
+        if phases and name not in phases:
+            continue
+        before = col.evaluations
+        fn(bulk, tier, seed)
+        per_phase[name] = col.evaluations - before
+    bulk.report()
+    res = col.result()
+    res['evaluations_per_phase'] = per_phase
     return res
